@@ -35,7 +35,7 @@ class C01(ObjCheck):
     assumptions = ["a handle is 'usable' iff calls through it succeed; dead handle numbers returned by a search continued after "
                    "C_Logout are not handles to the object",
                    "cross-token use of a handle is judged by the login state of the session's token"]
-    essential_labels = {"xtok_private_probe": 100, "stale_private_handle_probe": 100, "views_checked": 500}
+    essential_labels = {"xtok_private_probe": 60, "stale_private_handle_probe": 100, "views_checked": 500}
 
     def budget(self, tier):
         return {"examples": 3200, "shards": 16, "maxlen": 40} if tier == "quick" else {"examples": 32000, "shards": 16, "maxlen": 70}
